@@ -171,7 +171,7 @@ def snap(env, o, r, done, info):
 
 def first_call(env, fold):
     o = env.reset(fold)
-    return snap(env, o, None, bool(env._done), None)
+    return snap(env, o, None, ep.reset_ended_episode(env), None)
 
 
 def episode(env, acts, fold, upto=None):
